@@ -40,7 +40,7 @@ def gen_history(r, short=False):
   for _ in range(n):
     c = r.random()
     if c < 0.75:
-      ops.append(('store', r.choice(metrics), 100 + r.randrange(nt)))
+      ops.append(('store', r.choice(metrics), 100 + r.randrange(nt) + (0.5 if r.random() < 0.15 else 0)))
     elif c < 0.9:
       ops.append(('query', r.choice(metrics)))
     else:
